@@ -945,3 +945,38 @@ def ladder(expr):
         expr = expr.orelse
     out.append((None, expr))
     return out
+
+
+def _nnf(test, pol, out):
+    """conjuncts of `test` (pol=True) or of `not test` (pol=False), as (source, polarity) with != / not in / is not canonicalised"""
+    if isinstance(test, ast.UnaryOp) and isinstance(test.op, ast.Not):
+        return _nnf(test.operand, not pol, out)
+    if isinstance(test, ast.BoolOp) and ((isinstance(test.op, ast.And) and pol) or (isinstance(test.op, ast.Or) and not pol)):
+        for v in test.values:
+            _nnf(v, pol, out)
+        return out
+    if isinstance(test, ast.Compare) and len(test.ops) == 1:
+        flip = {ast.NotEq: ast.Eq, ast.NotIn: ast.In, ast.IsNot: ast.Is}
+        for neg, posop in flip.items():
+            if isinstance(test.ops[0], neg):
+                t2 = ast.Compare(left=test.left, ops=[posop()], comparators=test.comparators)
+                out.append((ast.unparse(t2), not pol))
+                return out
+    out.append((ast.unparse(test), pol))
+    return out
+
+
+def decision_leaves(expr):
+    """[(frozenset of (condition source, polarity)), value expr)] for every leaf of a tree of conditional expressions"""
+    out = []
+
+    def walk(e, conds):
+        if isinstance(e, ast.IfExp):
+            walk(e.body, conds + _nnf(e.test, True, []))
+            # the else-arm only knows that the test is false: a conjunction is false in more than one way, keep it as one negative fact
+            neg = _nnf(e.test, False, [])
+            walk(e.orelse, conds + neg)
+        else:
+            out.append((frozenset(conds), e))
+    walk(expr, [])
+    return out
